@@ -75,7 +75,7 @@ CHECKS = {
     "C19": ("TLA+ transcription of the elasticsearch/http out function (per-worker outBuf/begin reuse, Batch.ForEach, recursive sendSplit on 413) "
             "model-checked by TLC against Payload / FramingOK / BodyIs / SplitCovers (spec mutants, strict-versus-deviation pair for D14); every "
             "exported case replayed into the real output plugins (ES, http, splunk, loki, file, kafka, gelf) with adversarial routing values, each "
-            "captured body parsed back into event ids and per-event routing (topic / index / host / fields)",
+            "captured body parsed back into event ids and per-event routing (topic / index / host / fields); OutputFileSink.tla (concurrent workers and seal-up on the file sink) replayed on the real file plugin with two workers, payloads over 64 KiB and sealUp mid-flight; pipeline-side stage: recycled event objects and split, Batch.ForEach yields exactly the deliverable events",
             "TLC proves on the small-scope case space (every monotone 413 pattern over <=4 events, <=3 shrinking batches, event kinds, size classes) "
             "that the buffer/begin/split arithmetic delivers exactly the deliverable events once and in order, D14 characterised exactly; the real "
             "plugins' captured bodies must parse and carry the same ids.",
@@ -107,7 +107,7 @@ CHECKS = {
     "C08": ('TLC model checking incl. liveness of BatcherProto.tla (mutex/channel/worker granularity, Stop, heartbeat; send-after-unlock kept as a spec mutant that must reach the closed-channel send) and of Pipeline.tla; the real Batcher driven directly (byte/count bounds, heartbeat-only staleness, regular/child/child-parent mixes incl. zero-size children, scripted completion orders, Stop racing with 8 adders in a child process) and inside the pipeline; traces validated by TLC (PipelineMon) and model-generated runs checked for conformance (PipelineTrace)',
             'SizeBound (count, bytes), CommitInSeqOrder, CommitOnlySent, CommitOnce, Staleness, AllCommitted and StopTerminates are proven on BatcherProto; every clause is evaluated by TLC on each step of traces of the real Batcher under schedules where later batches finish first, batches hold only split parents, a non-first batch is given up, and Stop hits concurrent Adds (300/2000 trials).',
             CORE_NOTE, "DESIGN.md §6 C08"),
-    "C09": ('same machinery as C01 with failing sends, retries 0..5, with/without dead queue, split parents/children in given-up batches; monitors: attempts before give-up, lower bound retention*mult^(k-1)/2 on the k-th pause (time stamps), no commit while retrying, one Fail per event, committed by the dead queue alone / error callback once and committed by main once, payload identity of dead-queued events; plus a plugin-level stage (lib/c09_outputs.py) for the classification of failed requests by the output plugins themselves',
+    "C09": ('same machinery as C01 with failing sends, retries 0..5, with/without dead queue, split parents/children in given-up batches; monitors: attempts before give-up, lower bound retention*mult^(k-1)/2 on the k-th pause (time stamps), no commit while retrying, one Fail per event, committed by the dead queue alone / error callback once and committed by main once, payload identity of dead-queued events; plus plugin-level stages (lib/c09_outputs.py): EsSplit.tla = the elasticsearch out/send/sendSplit classification against every backend script, replayed on the real plugin behind the real RetriableBatcher; a failing-sink family for http, splunk, loki, kafka; DeadQueueScope.tla = a pipeline routes by its own configuration, pipelines built through the real fd.addPipeline / getStaticInfo in every order',
             'Retry/dead-queue routing invariants are checked on Pipeline.tla (all outcome sequences within the failure bound) and evaluated by TLC on traces of the real RetriableBatcher with scripted and random failures, several workers (shared back-off state shows as a pause below its lower bound) and the real Router.',
             CORE_NOTE, "DESIGN.md §6 C09"),
     "C10": ("TLC model checking of KafkaInput.tla (routing x completion orders; spread routing named as deviation) + traces of the real "
@@ -122,7 +122,7 @@ CHECKS = {
             "DESIGN.md §6 C10"),
     "C03": ("TLC model checking of FileInput.tla (every kill instant, sync/async persistence, all stream assignments; the code's resume rule as "
             "named deviation D3, residual and repaired-rule configs, mechanism switches) + TLC-generated kill/restart histories performed on the "
-            "REAL file input in a child process that is really SIGKILLed and restarted, rotation by rename, truncation, recycled-inode and slow-writer (a line written in two pieces across maintenance re-opens and across the kill) families; two-run "
+            "REAL file input in a child process that is really SIGKILLed and restarted, rotation by rename (also of every line, at discovery), truncation (also while down), recycled-inode, slow-writer and append-storm (appends at random instants under 1 ms maintenance) families; two-run "
             "histories judged by TLC (FileInputMon.tla)",
             "AtLeastOnce is checked exhaustively on the design for every kill point at the model's granularity; the resume rule's hole (D3) is "
             "reproduced at design level and on the real input, the residual and a repaired rule are proven in small scope, and every mechanism "
@@ -131,7 +131,7 @@ CHECKS = {
             "Trusted: harness-owned gate action and durable output around the real file input + pipeline; kill instants at gate/commit "
             "granularity (the save protocol itself is C07); one file plus rotated predecessors; a line counts as lost after 6 s without progress; "
             "symlinks, lz4, remove_after, offsets_op tail/reset not covered.", "DESIGN.md §6 C03"),
-    "C04": ('TLC model checking incl. liveness under fairness of detailed protocol specs (EventPoolLowMem/EventPoolStd: atomics, lock, cond-var, heartbeat; StreamProto: stream/streamer at mutex granularity) and of Pipeline.tla, each mechanism shown necessary by a spec mutant; TLC-constructed windows replayed on the real code (lost wake-up through verif hook gates; put || tryUnblock on a blocked stream); attend / timeout-then-detach / progress runs of the real pipeline validated by TLC',
+    "C04": ('TLC model checking incl. liveness under fairness of detailed protocol specs (EventPoolLowMem/EventPoolStd: atomics, lock, cond-var, heartbeat; StreamProto: stream/streamer at mutex granularity incl. the two-step stream.commit mutant; ProcGrowth: processor-pool growth) and of Pipeline.tla, each mechanism shown necessary by a spec mutant; TLC-constructed windows replayed on the real code (lost wake-up through verif hook gates; put || tryUnblock on a blocked stream); attend / timeout-then-detach / progress runs of the real pipeline validated by TLC',
             'NoWedge, NoEventLost, ChargedRight and eventual completion are model-checked for both pool protocols, the stream protocol and the pipeline model under weak fairness; the windows TLC constructs are reproduced deterministically on the real pools and streams and progress must resume within a bound; real pipeline runs at capacity 1, single processor, time-out-only flushes, timer-only batch flushes (also of a batch that holds only a split parent), back-to-back charges of K streams and detach-after-time-out sequences must reach idle with every stream attended.',
             'Trusted: bounded-time is judged by generous wall-clock bounds with heartbeat intervals shortened in-package; Go scheduler fairness; the stream protocol is replayed at the granularity of Pipeline.tla plus the constructed windows, StreamProto itself is design level.', "DESIGN.md §6 C04"),
     "C06": ("TLA+ transcription of the read loop model-checked against a declarative line/offset oracle (TLC, exhaustive "
@@ -140,7 +140,7 @@ CHECKS = {
             "TLC proves on the whole small-scope case space (all contents over {x,\\n} up to the bound x all splits into appends x "
             "all buffer sizes x size limits x cut_off x resume offsets) that the transcribed read loop hands over exactly the "
             "expected (offset, bytes) calls; the real worker.work is then executed on real files for those cases and must produce "
-            "the same calls, so an off-by-one in scanned/lastOffset/accumBuf/tail handling shows as a differing call.",
+            "the same calls, so an off-by-one in scanned/lastOffset/accumBuf/tail handling shows as a differing call; the start state for offsets_op tail / reset is established by the real initJobOffset.",
             "Trusted: the transcription is bound to the code only through the replayed cases (small scope: length <= 5/7, two symbols); "
             "OS file semantics; lz4 path not covered.", "DESIGN.md §6 C06"),
 }
